@@ -101,6 +101,19 @@ CLAIMED['C20'] = dict(
     note='Trusted: sample generator (non-decreasing jiffies, process work <= cores x elapsed, non-wrapped counters '
          'non-decreasing); core-count changes are outside the stated domain; numeric accuracy not addressed.')
 
+CLAIMED['C17'] = dict(
+    engine='RpcGate',
+    technique='definition-level TLA+ table (RpcGate.tla: method x state x parameter class -> admitted outcomes, '
+              'inertness) enumerated by TLC + every case executed on instances brought to each Supvisors state by a '
+              'real history (Master and non-Master), fault code / emitted requests / status snapshot compared',
+    text='The gate is a finite product; the spec transcribes the documentation (not the code) and TLC emits every '
+         'case with the admitted outcomes; each case is one real XML-RPC on a real instance in a really reached '
+         'state, so "spec differs from code on an enumerated input" is the property failing.',
+    design_ref='DESIGN.md 3 C17',
+    note='Trusted: SimCluster state builders (DISTRIBUTION / CONCILIATION / RESTARTING / SHUTTING_DOWN / ELECTION / FINAL '
+         'held by real means); method-specific faults count as served; one defective parameter at a time. Known '
+         'finding F12 (restart_application / NOT_MANAGED).')
+
 PENDING_REASON = 'check not built yet (work in progress; see DESIGN.md section 3)'
 
 
